@@ -28,9 +28,10 @@ def run(ctx, report):
     cfgname = ctx.config
     summaries, analyses = compute_summaries(ctx)
     muts = [f for f in ctx.facts.fns if f.kind in ("AssocFn", "Fn") and takes_mut_record(f)]
+    npub = len([f for f in muts if f.vis == "pub"])
     report.check(
-        "FLOOR", "mutators", len(muts) >= FLOOR_MUTATORS,
-        "at least %d functions taking &mut Enr<K> are analysed (found %d)" % (FLOOR_MUTATORS, len(muts)),
+        "FLOOR", "mutators", npub >= 22,
+        "the 22 public update calls (functions taking &mut Enr<K>) are analysed (found %d public, %d in all)" % (npub, len(muts)),
         config=cfgname,
     )
     for f in muts:
